@@ -18,6 +18,15 @@ pub struct Ctx {
     pub tier_thorough: bool,
     pub seed: u64,
     pub cases: Option<u64>,
+    /// multiplier of the default case count (used when the search budget is raised)
+    pub scale: u64,
+}
+
+impl Ctx {
+    /// number of generated cases: explicit --cases, else the tier's default, times --scale
+    pub fn count(&self, quick: u64, thorough: u64) -> u64 {
+        self.cases.unwrap_or(if self.tier_thorough { thorough } else { quick }) * self.scale.max(1)
+    }
 }
 
 fn main() {
@@ -34,6 +43,7 @@ fn main() {
     let mut cases: Option<u64> = None;
     let mut replay: Option<String> = None;
     let mut corpus: Option<String> = None;
+    let mut scale: u64 = 1;
     let mut i = 2;
     while i < args.len() {
         match args[i].as_str() {
@@ -44,6 +54,7 @@ fn main() {
             "--cases" => { cases = args[i + 1].parse().ok(); i += 2; }
             "--replay" => { replay = Some(args[i + 1].clone()); i += 2; }
             "--corpus" => { corpus = Some(args[i + 1].clone()); i += 2; }
+            "--scale" => { scale = args[i + 1].parse().unwrap_or(1); i += 2; }
             other => { eprintln!("unknown argument {}", other); std::process::exit(2); }
         }
     }
@@ -55,6 +66,7 @@ fn main() {
         tier_thorough: tier == "thorough",
         seed,
         cases,
+        scale,
     };
     let load_case = |p: &str| -> Value {
         let txt = std::fs::read_to_string(p).unwrap_or_else(|e| panic!("cannot read {}: {}", p, e));
